@@ -547,7 +547,7 @@ func (g txGen) net(p txProv, canary string, pristine bool) txNet {
 
 func (g txGen) atom(query bool) cAtom {
 	t := g.pick("Exact", "Exact", "RegularExpression")
-	return cAtom{T: &t, N: g.pick("user", "version", "canary-by-cookie", "x-env"), V: g.pick("a", "v2", "true", "123.*")}
+	return cAtom{T: &t, N: g.pick("user", "version", "canary-by-cookie", "x-env", "X-Canary-User"), V: g.pick("a", "v2", "true", "123.*")}
 }
 
 // matches: headerful = every match carries a header (what the aliyun-alb / higress scripts need)
